@@ -12,6 +12,7 @@ import (
 	"regexp"
 	"runtime"
 	"sort"
+	"strings"
 	"sync"
 	"sync/atomic"
 	"time"
@@ -24,6 +25,7 @@ import (
 	"github.com/sarchlab/akita/v5/mem/memprotocol"
 	"github.com/sarchlab/akita/v5/messaging"
 	"github.com/sarchlab/akita/v5/modeling"
+	"github.com/sarchlab/akita/v5/monitoring2"
 	"github.com/sarchlab/akita/v5/noc/directconnection"
 	"github.com/sarchlab/akita/v5/simulation"
 	"github.com/sarchlab/akita/v5/timing"
@@ -50,6 +52,7 @@ type c40Case struct {
 	MSHR       int      `json:"mshr"`
 	DRAMLat    int      `json:"dram_latency"`
 	Procs      int      `json:"gomaxprocs"`
+	Spin       int      `json:"spinners,omitempty"` // busy goroutines competing for the Ps during the monitored run (perturbation plan)
 	Reqs       []c40Req `json:"reqs"`
 }
 
@@ -123,41 +126,45 @@ func (r c40Req) path() string {
 // ---- what the child reports -------------------------------------------------
 
 type c40Served struct {
-	Kind    string `json:"kind"`
-	Status  int    `json:"status"`
-	MidRun  bool   `json:"mid_run"`  // Run() had started before the request was sent and had not returned when the response arrived
-	Paused  bool   `json:"paused"`   // the client had the engine paused (its own pause, not yet continued)
-	Advance bool   `json:"advanced"` // the handled-event counter moved between send and receive
-	Err     string `json:"err,omitempty"`
-	Body    string `json:"body,omitempty"` // truncated
+	Kind   string `json:"kind"`
+	Status int    `json:"status"`
+	MidRun bool   `json:"mid_run"` // Run() had started before the request was sent and had not returned when the response arrived
+	SendNS int64  `json:"send_ns"`
+	RecvNS int64  `json:"recv_ns"`
+	Paused bool   `json:"paused"` // the client had the engine paused (its own pause, not yet continued)
+	Err    string `json:"err,omitempty"`
+	Body   string `json:"body,omitempty"` // truncated
 }
 
 type c40Outcome struct {
-	Finished   bool   `json:"finished"`
-	Panic      string `json:"panic,omitempty"`
-	FinalTime  uint64 `json:"final_time"`
-	Events     uint64 `json:"events"`
-	EventHash  string `json:"event_hash"`  // hash over (time, handler) of every event in dispatch order
-	MemHash    string `json:"mem_hash"`    // DRAM contents over the address range
-	AgentHash  string `json:"agent_hash"`  // the agent's known values (address -> surviving value list)
-	RspHash    string `json:"rsp_hash"`    // (simulated time, kind, data) of every response delivered to the agent, in order
-	Reads      int    `json:"reads"`       // read responses delivered
-	Writes     int    `json:"writes"`      // write-done responses delivered
-	Pending    int    `json:"pending"`     // requests without a response at the end
-	Left       int    `json:"left"`        // accesses never issued
+	Finished  bool   `json:"finished"`
+	Panic     string `json:"panic,omitempty"`
+	FinalTime uint64 `json:"final_time"`
+	Events    uint64 `json:"events"`
+	EventHash string `json:"event_hash"` // hash over (time, handler) of every event in dispatch order
+	MemHash   string `json:"mem_hash"`   // DRAM contents over the address range
+	AgentHash string `json:"agent_hash"` // the agent's known values (address -> surviving value list)
+	RspHash   string `json:"rsp_hash"`   // (simulated time, kind, data) of every response delivered to the agent, in order
+	Reads     int    `json:"reads"`      // read responses delivered
+	Writes    int    `json:"writes"`     // write-done responses delivered
+	Pending   int    `json:"pending"`    // requests without a response at the end
+	Left      int    `json:"left"`       // accesses never issued
 }
 
 type c40Result struct {
-	Race      bool        `json:"race_enabled"`
-	Base      c40Outcome  `json:"base"`      // unmonitored run
-	Mon       c40Outcome  `json:"monitored"` // monitored run
-	Served    []c40Served `json:"served"`
-	Hang      string      `json:"hang,omitempty"` // which phase did not finish within the bounded wait
-	Port      int         `json:"port"`
-	BaseMS    int64       `json:"base_ms"`
-	MonMS     int64       `json:"mon_ms"`
-	ClientMS  int64       `json:"client_ms"`
-	HTTPPanic []string    `json:"http_panics,omitempty"`
+	Race       bool         `json:"race_enabled"`
+	Base       c40Outcome   `json:"base"`               // unmonitored run
+	Mon        c40Outcome   `json:"monitored"`          // monitored run
+	Served     []c40Served  `json:"served"`             // filled in by the parent (it runs the client)
+	Sections   []c40Section `json:"sections,omitempty"` // probe mode
+	RunStartNS int64        `json:"run_start_ns"`
+	RunEndNS   int64        `json:"run_end_ns"`
+	Hang       string       `json:"hang,omitempty"` // which phase did not finish within the bounded wait
+	Port       int          `json:"port"`
+	BaseMS     int64        `json:"base_ms"`
+	MonMS      int64        `json:"mon_ms"`
+	ClientMS   int64        `json:"client_ms"`
+	HTTPPanic  []string     `json:"http_panics,omitempty"`
 }
 
 // ---- the assembly --------------------------------------------------------------
@@ -170,15 +177,26 @@ type c40Sim struct {
 	dram   *idealmemcontroller.Comp
 	rec    *c40Recorder
 	port   int
+
+	probe      *c40Probe
+	ownMonitor *monitoring2.Monitor
 }
 
 // c40Recorder is an engine hook (both runs carry it) hashing the dispatch
 // order and the data-carrying responses seen by the agent.
+//
+// Nothing in it may synchronise the engine goroutine with the client while the
+// run is in progress: the race detector treats an atomic read of something the
+// engine goroutine wrote atomically as an acquire, and the loopback connection
+// carries that edge on to the HTTP handler (internal/poll orders all I/O under
+// -race), which would hide exactly the races this check looks for. Therefore
+// the event counter and the hashes are plain fields owned by the engine
+// goroutine and read only after Run returned.
 type c40Recorder struct {
-	events  atomic.Uint64
+	events  uint64
 	evHash  uint64
-	running atomic.Bool
 	engine  timing.Engine
+	probe   *c40Probe // probe mode only: publishes the engine phase (this *does* synchronise; probe mode does not rely on the race detector)
 	rspHash uint64
 	reads   int
 	writes  int
@@ -222,7 +240,13 @@ func mix(h uint64, b []byte) uint64 {
 
 func (r *c40Recorder) Func(ctx hooking.HookCtx) {
 	if ctx.Pos != timing.HookPosBeforeEvent {
+		if r.probe != nil && ctx.Pos == timing.HookPosAfterEvent {
+			r.probe.phase.Store(2 * r.events)
+		}
 		return
+	}
+	if r.probe != nil {
+		r.probe.phase.Store(2*r.events + 1)
 	}
 	evt := ctx.Item.(timing.Event)
 	var b [8]byte
@@ -230,10 +254,99 @@ func (r *c40Recorder) Func(ctx hooking.HookCtx) {
 	r.evHash = mix(r.evHash, b[:])
 	r.evHash = mix(r.evHash, []byte(evt.HandlerID()))
 	r.evHash = mix(r.evHash, []byte{0})
-	r.events.Add(1)
+	r.events++
 }
 
 var portRe = regexp.MustCompile(`http://localhost:(\d+)`)
+
+// c40CapturePort runs start (which starts a monitor server) and returns the
+// port the monitor announced — on os.Stderr only.
+func c40CapturePort(start func()) (int, error) {
+	rd, wr, err := os.Pipe()
+	if err != nil {
+		return 0, err
+	}
+	saved := os.Stderr
+	os.Stderr = wr
+	func() {
+		defer func() { os.Stderr = saved; wr.Close() }()
+		start()
+	}()
+	txt, _ := io.ReadAll(rd)
+	rd.Close()
+	m := portRe.FindSubmatch(txt)
+	if m == nil {
+		return 0, fmt.Errorf("monitor did not announce a port: %q", txt)
+	}
+	port := 0
+	fmt.Sscanf(string(m[1]), "%d", &port)
+	return port, nil
+}
+
+// ---- quiescence probe ---------------------------------------------------------------------------
+
+// c40Section is one Pause()…Continue() bracket made by a monitor handler.
+type c40Section struct {
+	Handler string `json:"handler"` // the Monitor method that called Pause
+	S1      uint64 `json:"s1"`      // engine phase when Pause() returned: 2k = between events after k events, 2k+1 = inside event k+1
+	S2      uint64 `json:"s2"`      // engine phase when Continue() was called
+}
+
+type c40Probe struct {
+	phase    atomic.Uint64
+	mu       sync.Mutex
+	cur      *c40Section
+	sections []c40Section
+}
+
+// c40ProbeEngine wraps the real engine for the monitor only; the components
+// schedule on the real one.
+type c40ProbeEngine struct {
+	timing.Engine
+	p *c40Probe
+}
+
+func c40CallingHandler() string {
+	pcs := make([]uintptr, 24)
+	n := runtime.Callers(2, pcs)
+	frames := runtime.CallersFrames(pcs[:n])
+	h := "unknown"
+	for {
+		f, more := frames.Next()
+		const pfx = "github.com/sarchlab/akita/v5/monitoring2.(*Monitor)."
+		if strings.HasPrefix(f.Function, pfx) {
+			h = strings.TrimSuffix(strings.TrimPrefix(f.Function, pfx), "-fm")
+			if i := strings.Index(h, ".func"); i >= 0 {
+				h = h[:i]
+			}
+		}
+		if !more {
+			break
+		}
+	}
+	return h
+}
+
+func (e *c40ProbeEngine) Pause() {
+	e.Engine.Pause()
+	s1 := e.p.phase.Load()
+	h := c40CallingHandler()
+	e.p.mu.Lock()
+	e.p.cur = &c40Section{Handler: h, S1: s1}
+	e.p.mu.Unlock()
+}
+
+func (e *c40ProbeEngine) Continue() {
+	s2 := e.p.phase.Load()
+	e.p.mu.Lock()
+	if e.p.cur != nil {
+		e.p.cur.S2 = s2
+		e.p.sections = append(e.p.sections, *e.p.cur)
+		e.p.cur = nil
+	}
+	e.p.mu.Unlock()
+	e.Engine.Continue()
+}
 
 func c40AssignPorts(s *simulation.Simulation, comp messaging.Component, names ...string) {
 	for _, name := range names {
@@ -250,14 +363,11 @@ func c40AssignPorts(s *simulation.Simulation, comp messaging.Component, names ..
 // shape of /repo/mem/acceptancetests/writebackcache, with or without the
 // monitor. With the monitor on, the port it chose is read from the line it
 // prints to stderr.
-func c40Build(c c40Case, monitored bool, dir string) (*c40Sim, error) {
+func c40Build(c c40Case, mode string, dir string) (*c40Sim, error) {
 	timing.ResetIDGenerator()
 
-	name := "base"
-	if monitored {
-		name = "mon"
-	}
-	b := simulation.MakeBuilder().WithOutputFileName(filepath.Join(dir, name))
+	monitored := mode == "mon"
+	b := simulation.MakeBuilder().WithOutputFileName(filepath.Join(dir, mode))
 	if !monitored {
 		b = b.WithoutMonitoring()
 	}
@@ -265,24 +375,11 @@ func c40Build(c c40Case, monitored bool, dir string) (*c40Sim, error) {
 	out := &c40Sim{rec: &c40Recorder{evHash: fnvOffset, rspHash: fnvOffset}}
 
 	if monitored {
-		// The monitor announces its port on os.Stderr only.
-		rd, wr, err := os.Pipe()
+		port, err := c40CapturePort(func() { out.sim = b.Build() })
 		if err != nil {
 			return nil, err
 		}
-		saved := os.Stderr
-		os.Stderr = wr
-		func() {
-			defer func() { os.Stderr = saved; wr.Close() }()
-			out.sim = b.Build()
-		}()
-		txt, _ := io.ReadAll(rd)
-		rd.Close()
-		m := portRe.FindSubmatch(txt)
-		if m == nil {
-			return nil, fmt.Errorf("monitor did not announce a port: %q", txt)
-		}
-		fmt.Sscanf(string(m[1]), "%d", &out.port)
+		out.port = port
 	} else {
 		out.sim = b.Build()
 	}
@@ -335,6 +432,25 @@ func c40Build(c c40Case, monitored bool, dir string) (*c40Sim, error) {
 	conn.PlugIn(out.cache.GetPortByName("Top"))
 	conn.PlugIn(out.dram.GetPortByName("Top"))
 
+	if mode == "probe" {
+		// Own monitor over a wrapper of the same engine: the wrapper notes what
+		// the engine was doing when Pause() returned / Continue() was called.
+		out.probe = &c40Probe{}
+		out.rec.probe = out.probe
+		mon := monitoring2.NewMonitor()
+		mon.RegisterEngine(&c40ProbeEngine{Engine: out.engine, p: out.probe})
+		mon.RegisterComponent(out.agent)
+		mon.RegisterComponent(out.dram)
+		mon.RegisterComponent(out.cache)
+		out.agent.CreateProgressBars(mon.CreateProgressBar)
+		port, err := c40CapturePort(mon.StartServer)
+		if err != nil {
+			return nil, err
+		}
+		out.port = port
+		out.ownMonitor = mon
+	}
+
 	out.rec.engine = out.engine
 	out.engine.(hooking.Hookable).AcceptHook(out.rec)
 	out.agent.GetPortByName("Mem").AcceptHook(c40RspHook{out.rec})
@@ -351,7 +467,7 @@ func (s *c40Sim) outcome(c c40Case, finished bool, pan string) c40Outcome {
 		return o
 	}
 	o.FinalTime = uint64(s.engine.CurrentTime())
-	o.Events = s.rec.events.Load()
+	o.Events = s.rec.events
 	o.EventHash = hex64(s.rec.evHash)
 	o.RspHash = hex64(s.rec.rspHash)
 	o.Reads, o.Writes = s.rec.reads, s.rec.writes
@@ -392,116 +508,128 @@ func (s *c40Sim) outcome(c c40Case, finished bool, pan string) c40Outcome {
 
 const c40LegDeadline = 90 * time.Second
 
-// runLeg runs the assembled simulation to completion on the calling goroutine's
-// child goroutine with a bounded wait. client (may be nil) is started once Run is
-// about to begin and must return before the outcome is taken.
-func (s *c40Sim) runLeg(c c40Case, client func()) (o c40Outcome, hang bool) {
+// c40Announce is what the child writes to <dir>/port right before the
+// monitored run starts: the parent process runs the HTTP client. (The client
+// is deliberately not a goroutine of the simulation process: under -race every
+// incidental synchronisation between the engine goroutine and an in-process
+// client — pooled objects, atomics — would travel over the loopback connection
+// to the HTTP handler and hide the races this check looks for.)
+type c40Announce struct {
+	Port int `json:"port"`
+}
+
+// runLeg runs the assembled simulation to completion on a goroutine of its own
+// with a bounded wait. announce (may be nil) is called right before the engine
+// goroutine starts; afterRun (may be nil) is called once Run has returned and
+// must return before the outcome is taken.
+func (s *c40Sim) runLeg(c c40Case, announce func(), afterRun func() bool) (o c40Outcome, startNS, endNS int64, hang bool) {
 	s.agent.TickLater()
 
-	done := make(chan string, 1)
-	var cwg sync.WaitGroup
-	if client != nil {
-		cwg.Add(1)
+	type fin struct {
+		pan        string
+		start, end int64
+	}
+	done := make(chan fin, 1)
+	if announce != nil {
+		announce()
 	}
 	go func() {
-		pan := ""
+		var f fin
 		func() {
 			defer func() {
 				if r := recover(); r != nil {
 					buf := make([]byte, 1<<14)
 					buf = buf[:runtime.Stack(buf, false)]
-					pan = fmt.Sprintf("%v\n%s", r, buf)
+					f.pan = fmt.Sprintf("%v\n%s", r, buf)
 				}
 			}()
-			s.rec.running.Store(true)
-			if client != nil {
-				go func() { defer cwg.Done(); client() }()
-			}
+			f.start = time.Now().UnixNano()
 			err := s.engine.Run()
 			if err != nil {
-				pan = "Run returned error: " + err.Error()
+				f.pan = "Run returned error: " + err.Error()
 			}
 		}()
-		s.rec.running.Store(false)
-		done <- pan
+		f.end = time.Now().UnixNano()
+		done <- f
 	}()
 
 	select {
-	case pan := <-done:
-		cdone := make(chan struct{})
-		go func() { cwg.Wait(); close(cdone) }()
-		select {
-		case <-cdone:
-		case <-time.After(c40LegDeadline):
-			return c40Outcome{}, true
+	case f := <-done:
+		if afterRun != nil && !afterRun() {
+			return c40Outcome{}, f.start, f.end, true
 		}
-		return s.outcome(c, pan == "", pan), false
+		return s.outcome(c, f.pan == "", f.pan), f.start, f.end, false
 	case <-time.After(c40LegDeadline):
-		return c40Outcome{}, true
+		return c40Outcome{}, 0, 0, true
 	}
 }
 
-// ---- the client -----------------------------------------------------------------------
+// ---- the client (runs in the parent process) -----------------------------------------------
 
-func c40Client(s *c40Sim, reqs []c40Req, served *[]c40Served) func() {
-	return func() {
-		tr := &http.Transport{DisableKeepAlives: false, MaxIdleConnsPerHost: 1}
-		cl := &http.Client{Transport: tr, Timeout: 60 * time.Second}
-		defer tr.CloseIdleConnections()
-		base := fmt.Sprintf("http://127.0.0.1:%d", s.port)
-		paused := false
-		for _, r := range reqs {
-			if r.GapUS > 0 {
-				time.Sleep(time.Duration(r.GapUS) * time.Microsecond)
-			}
-			for i := 0; i < r.Yields; i++ {
-				runtime.Gosched()
-			}
-			sv := c40Served{Kind: r.Kind, Paused: paused}
-			before := s.rec.running.Load()
-			ev0 := s.rec.events.Load()
-			method := http.MethodGet
-			if r.Kind == "pause" || r.Kind == "continue" || r.Kind == "tick" {
-				method = http.MethodPost
-			}
-			req, err := http.NewRequest(method, base+r.path(), nil)
-			if err != nil {
-				sv.Err = err.Error()
-				*served = append(*served, sv)
-				continue
-			}
-			rsp, err := cl.Do(req)
-			if err != nil {
-				sv.Err = err.Error()
-				*served = append(*served, sv)
-				continue
-			}
-			body, _ := io.ReadAll(io.LimitReader(rsp.Body, 1<<20))
-			rsp.Body.Close()
-			after := s.rec.running.Load()
-			sv.Status = rsp.StatusCode
-			sv.MidRun = before && after
-			sv.Advance = s.rec.events.Load() != ev0
-			if len(body) > 120 {
-				body = body[:120]
-			}
-			sv.Body = string(body)
-			switch r.Kind {
-			case "pause":
-				paused = true
-			case "continue":
-				paused = false
-			}
-			*served = append(*served, sv)
+// c40Client issues the requests against the announced port. stop is closed when
+// the child has gone away.
+func c40Client(port int, reqs []c40Req, stop <-chan struct{}) []c40Served {
+	var served []c40Served
+	tr := &http.Transport{DisableKeepAlives: false, MaxIdleConnsPerHost: 1}
+	cl := &http.Client{Transport: tr, Timeout: 60 * time.Second}
+	defer tr.CloseIdleConnections()
+	base := fmt.Sprintf("http://127.0.0.1:%d", port)
+	paused := false
+	for _, r := range reqs {
+		select {
+		case <-stop:
+			return served
+		default:
 		}
+		if r.GapUS > 0 {
+			time.Sleep(time.Duration(r.GapUS) * time.Microsecond)
+		}
+		for i := 0; i < r.Yields; i++ {
+			runtime.Gosched()
+		}
+		sv := c40Served{Kind: r.Kind, Paused: paused}
+		method := http.MethodGet
+		if r.Kind == "pause" || r.Kind == "continue" || r.Kind == "tick" {
+			method = http.MethodPost
+		}
+		req, err := http.NewRequest(method, base+r.path(), nil)
+		if err != nil {
+			sv.Err = err.Error()
+			served = append(served, sv)
+			continue
+		}
+		sv.SendNS = time.Now().UnixNano()
+		rsp, err := cl.Do(req)
+		if err != nil {
+			sv.Err = err.Error()
+			served = append(served, sv)
+			continue
+		}
+		body, _ := io.ReadAll(io.LimitReader(rsp.Body, 1<<20))
+		rsp.Body.Close()
+		sv.RecvNS = time.Now().UnixNano()
+		sv.Status = rsp.StatusCode
+		if len(body) > 120 {
+			body = body[:120]
+		}
+		sv.Body = string(body)
+		switch r.Kind {
+		case "pause":
+			paused = true
+		case "continue":
+			paused = false
+		}
+		served = append(served, sv)
 	}
+	return served
 }
 
 // c40ChildReq is what the parent asks a child to do with a case.
 type c40ChildReq struct {
-	Case c40Case `json:"case"`
-	Base bool    `json:"base"` // run the unmonitored leg
-	Mon  bool    `json:"mon"`  // run the monitored leg with the client
+	Case  c40Case `json:"case"`
+	Base  bool    `json:"base"`  // run the unmonitored leg
+	Mon   bool    `json:"mon"`   // run the monitored leg (the parent runs the client)
+	Probe bool    `json:"probe"` // monitored leg with the harness' own Monitor over a Pause/Continue-observing engine wrapper
 }
 
 // c40RunCase is what the child process does: the unmonitored leg and/or the
@@ -515,13 +643,13 @@ func c40RunCase(rq c40ChildReq, dir string) c40Result {
 	}
 
 	if rq.Base {
-		base, err := c40Build(c, false, dir)
+		base, err := c40Build(c, "base", dir)
 		if err != nil {
 			res.Hang = "build-base: " + err.Error()
 			return res
 		}
 		t0 := time.Now()
-		o, hang := base.runLeg(c, nil)
+		o, _, _, hang := base.runLeg(c, nil, nil)
 		res.BaseMS = time.Since(t0).Milliseconds()
 		if hang {
 			res.Hang = "base"
@@ -531,31 +659,61 @@ func c40RunCase(rq c40ChildReq, dir string) c40Result {
 		base.sim.Terminate()
 	}
 
-	if rq.Mon {
-		mon, err := c40Build(c, true, dir)
+	if rq.Mon || rq.Probe {
+		mode := "mon"
+		if rq.Probe {
+			mode = "probe"
+		}
+		mon, err := c40Build(c, mode, dir)
 		if err != nil {
 			res.Hang = "build-mon: " + err.Error()
 			return res
 		}
 		res.Port = mon.port
-		var served []c40Served
-		var clientMS int64
-		cl := c40Client(mon, c.Reqs, &served)
+		var stopSpin atomic.Bool
+		for i := 0; i < c.Spin; i++ {
+			go func() {
+				n := 0
+				for !stopSpin.Load() {
+					n++
+					if n%100000 == 0 {
+						runtime.Gosched()
+					}
+				}
+			}()
+		}
+		defer stopSpin.Store(true)
 		t0 := time.Now()
-		o, hang := mon.runLeg(c, func() {
-			t1 := time.Now()
-			cl()
-			clientMS = time.Since(t1).Milliseconds()
+		o, st, en, hang := mon.runLeg(c, func() {
+			ab, _ := json.Marshal(c40Announce{Port: mon.port})
+			_ = os.WriteFile(filepath.Join(dir, "port.tmp"), ab, 0o644)
+			_ = os.Rename(filepath.Join(dir, "port.tmp"), filepath.Join(dir, "port"))
+		}, func() bool {
+			// keep the server up until the client in the parent has finished
+			deadline := time.Now().Add(c40LegDeadline)
+			for time.Now().Before(deadline) {
+				if _, err := os.Stat(filepath.Join(dir, "clientdone")); err == nil {
+					return true
+				}
+				time.Sleep(2 * time.Millisecond)
+			}
+			return false
 		})
 		res.MonMS = time.Since(t0).Milliseconds()
+		res.RunStartNS, res.RunEndNS = st, en
 		if hang {
 			res.Hang = "monitored"
-			res.Served = served
 			return res
 		}
-		res.ClientMS = clientMS
 		res.Mon = o
-		res.Served = served
+		if mon.ownMonitor != nil {
+			mon.ownMonitor.StopServer()
+		}
+		if mon.probe != nil {
+			mon.probe.mu.Lock()
+			res.Sections = append(res.Sections, mon.probe.sections...)
+			mon.probe.mu.Unlock()
+		}
 		mon.sim.Terminate()
 	}
 	return res
